@@ -27,10 +27,11 @@ def _exp(seed):
 
 
 def run(chk):
-    r = chk.tlc("StoreMC", "StoreMC.cfg", label="design: persistence and metadata invariants")
-    if r.violated:
-        raise MachineryError(f"Store design violates {r.violated}: {r.counterexample()[:3000]}")
-    chk.tlc("StoreMC", "StoreMC_NpHeader.cfg", expect_violation="C37_Persistent", label="vacuity guard: NumPy-scalar header")
+    for _cfg in (("StoreMC.cfg",) if chk.thorough() else ("StoreMC_quick.cfg", "StoreMC_nocopy.cfg")):
+        r = chk.tlc("StoreMC", _cfg, label=_cfg + ": " + "design: persistence and metadata invariants")
+        if r.violated:
+            raise MachineryError(f"Store design violates {r.violated}: {r.counterexample()[:3000]}")
+    chk.tlc("StoreMC", "StoreMC_NpHeader.cfg", expect_violation=True, label="vacuity guard: NumPy-scalar header")
     chk.tlc("StoreMC", "StoreMC_ExtClash.cfg", expect_violation=True, label="vacuity guard: stale file of the other kind")
     # (i) histories
     hists = []
